@@ -35,6 +35,7 @@ def gen_script(rng):
         else: L.append('fsync')
         L += qs
     L.append('clearfail')
+    L.append('quiesce')
     L += qs
     L.append('counts')
     for _ in range(3):
@@ -61,7 +62,9 @@ def spec_for_acknowledged(lines, io):
     for i, l in enumerate(lines):
         t = l.split()[0]
         o = io[i] if i < len(io) else ''
-        if t in ('W', 'D') and (' Err ' in o or o.endswith('Timeout') or ' Panic ' in o):
+        if t in ('fail', 'clearfail'):
+            L2.append('nop')
+        elif t in ('W', 'D') and (' Err ' in o or o.endswith('Timeout') or ' Panic ' in o):
             L2.append('nop')
         elif t in ('close_active', 'create_active', 'restore_active') and ' Err Io' in o:
             L2.append('nop')
@@ -92,6 +95,10 @@ def oracle(lines, io, spec=None):
     def tag_for(i):
         # known classes, recognised from what failed
         kind, pat = fault.split()[1], fault.split()[2]
+        if any(o.endswith('Err Index') for o in io):
+            return '[F2] '
+        if any(io[j] == 'quiesce dead' for j in range(min(len(io), len(lines))) if lines[j] == 'quiesce'):
+            return '[F1] '
         if pat == '.index' or kind == 'writeat':
             return '[F9] '
         if kind == 'sync' and any(lines[j] == 'close_active' and ' Err ' in io[j] for j in range(fi, min(i + 1, len(io)))):
@@ -100,9 +107,17 @@ def oracle(lines, io, spec=None):
                 any(io[j] == 'quiesce dead' for j in range(len(io)) if lines[j] == 'quiesce'):
             return '[F1] '
         return ''
+    # a delete whose fault hit one of the closed blobs is logged and counted as 0 there (the call still returns Ok):
+    # which blobs got their marker is then not determined by the acknowledgement; such keys are left out
+    uncertain = set()
+    for i in range(fi, min(ci, len(io), len(amodel))):
+        if lines[i].startswith('D ') and io[i] != amodel[i]:
+            uncertain.add(lines[i].split()[1])
     # session: reads must equal the specification over acknowledged operations
     for i in range(fi, min(close_i, len(io))):
         l = lines[i]
+        if l.startswith('R ') and l.split()[1] in uncertain:
+            continue
         if l.startswith('R ') and i < len(aspec) and aspec[i].startswith('ok '):
             want = aspec[i][3:]
             if io[i] != want:
@@ -127,6 +142,8 @@ def oracle(lines, io, spec=None):
             quarantined = 'corrupted=0' not in cl
             for i in range(open_i + 1, min(len(lines), len(io))):
                 l = lines[i]
+                if l.startswith('R ') and l.split()[1] in uncertain:
+                    continue
                 if l.startswith('R ') and i < len(aspec) and aspec[i].startswith('ok '):
                     if io[i] != aspec[i][3:] and not quarantined:
                         fails.append(tag_for(i) + 'line %d `%s` after restart: `%s`, acknowledged history implies `%s` (nothing quarantined)' % (i, l, io[i], aspec[i][3:]))
